@@ -57,6 +57,7 @@ type Ctx struct {
 	notes     []string
 	extra     map[string]any
 	reduced   int
+	redClass  map[string]int
 	knownSeen [][2]string
 }
 
@@ -85,11 +86,47 @@ func NewCtx(prop, tier string) *Ctx {
 
 func (c *Ctx) Quick() bool { return c.Tier != "thorough" }
 
+// KnownMatch reports whether a violation of this class/reason is attributed to a listed known finding (and counts it).
+func (c *Ctx) KnownMatch(class, reason string) bool {
+	c.mu.Lock()
+	defer c.mu.Unlock()
+	for _, k := range c.known {
+		if !k.Fixed && k.Matches(class, reason) {
+			c.knownHit[k.ID]++
+			return true
+		}
+	}
+	return false
+}
+
+// TakeReduceSlotFor limits reductions per violation class (2) and overall (VERIF_REDUCE or 12).
+func (c *Ctx) TakeReduceSlotFor(class string) bool {
+	c.mu.Lock()
+	defer c.mu.Unlock()
+	limit := 12
+	if v, err := strconv.Atoi(os.Getenv("VERIF_REDUCE")); err == nil {
+		limit = v
+	}
+	if c.redClass == nil {
+		c.redClass = map[string]int{}
+	}
+	if c.reduced >= limit || c.redClass[class] >= 2 {
+		return false
+	}
+	c.reduced++
+	c.redClass[class]++
+	return true
+}
+
 // TakeReduceSlot returns true for the first few violations of a run: those get their witness reduced.
 func (c *Ctx) TakeReduceSlot() bool {
 	c.mu.Lock()
 	defer c.mu.Unlock()
-	if c.reduced >= 6 {
+	limit := 6
+	if v, err := strconv.Atoi(os.Getenv("VERIF_REDUCE")); err == nil {
+		limit = v
+	}
+	if c.reduced >= limit {
 		return false
 	}
 	c.reduced++
